@@ -23,6 +23,7 @@ import (
 	"time"
 
 	"github.com/cockroachdb/pebble/vfs"
+	"google.golang.org/grpc"
 
 	"github.com/oxia-db/oxia/common/metric"
 	time2 "github.com/oxia-db/oxia/common/time"
@@ -326,6 +327,14 @@ func roundtrip(r *proto.WriteRequest) *proto.WriteRequest {
 type outcome struct {
 	viols []ev.Violation
 	sig   string // outcome signature of the log (statuses / error classes), for distinct counting
+	rejs  []rejection
+}
+
+// rejection: ProcessWrite refused the last request of log with an error for which kv.IsInvalidRequestError holds
+// and left no trace. That is an acceptable per-request outcome provided the end-to-end routes cope with it.
+type rejection struct {
+	key string
+	log []int
 }
 
 func apply(db kv.DB, req *proto.WriteRequest, off int64) (resp *proto.WriteResponse, err error, pan any) {
@@ -356,6 +365,10 @@ func classifyErr(g gen, req *proto.WriteRequest, err error) string {
 		return "seqkey:zero-first-delta-infra-error"
 	case errors.Is(err, kv.ErrMissingSequenceDeltas):
 		return "seqkey:too-few-deltas-infra-error"
+	case errors.Is(err, kv.ErrInvalidSequenceKey):
+		return "seqkey:unparsable-suffix-infra-error"
+	case errors.Is(err, kv.ErrSequenceOverflow):
+		return "seqkey:sequence-overflow-infra-error"
 	}
 	s := err.Error()
 	if hasSeqPut(req) && (strings.Contains(s, "expected integer") || strings.Contains(s, "EOF") || strings.Contains(s, "unexpected") ||
@@ -476,10 +489,13 @@ func runLog(log []int) outcome {
 	}
 	failed := false
 	commit := int64(-1)
+	outcomesA := make([]string, len(log)) // "ok" or the class of the typed rejection
 	for i, gi := range log {
 		g := gens[gi]
 		req := roundtrip(g.build())
 		nP, nD, nR := len(req.Puts), len(req.Deletes), len(req.DeleteRanges)
+		dumpBefore := strings.Join(oxh.DumpDB(dbA, oxh.DumpOpts{}), "\n")
+		verBefore := kv.VerifVersionIdTracker(dbA)
 		resp, err, pan := apply(dbA, req, int64(i))
 		where := fmt.Sprintf("request #%d %s of log %v", i, g.name, names(log))
 		switch {
@@ -487,6 +503,19 @@ func runLog(log []int) outcome {
 			failed = true
 			viol("panic:"+g.family, fmt.Sprintf("%s: ProcessWrite panicked: %v", where, pan))
 			fmt.Fprintf(&sig, "|panic")
+		case err != nil && kv.IsInvalidRequestError(err):
+			// typed per-request rejection: acceptable iff it leaves no trace (and the end-to-end routes cope, see main)
+			key := classifyErr(g, req, err)
+			dumpAfter := strings.Join(oxh.DumpDB(dbA, oxh.DumpOpts{}), "\n")
+			verAfter := kv.VerifVersionIdTracker(dbA)
+			if dumpAfter != dumpBefore || verAfter != verBefore {
+				failed = true
+				viol(key, fmt.Sprintf("%s: ProcessWrite refused the request (%v) but left a trace: version counter %d -> %d\n--- before\n%s\n--- after\n%s", where, err, verBefore, verAfter, dumpBefore, dumpAfter))
+			} else if !nondet {
+				out.rejs = append(out.rejs, rejection{key: key, log: append([]int{}, log[:i+1]...)})
+			}
+			outcomesA[i] = key
+			fmt.Fprintf(&sig, "|rejected:%s", key)
 		case err != nil:
 			failed = true
 			key := classifyErr(g, req, err)
@@ -494,6 +523,7 @@ func runLog(log []int) outcome {
 			fmt.Fprintf(&sig, "|%s", key)
 		default:
 			commit = int64(i)
+			outcomesA[i] = "ok"
 			if len(resp.Puts) != nP || len(resp.Deletes) != nD || len(resp.DeleteRanges) != nR {
 				viol("status-count-mismatch:"+g.family, fmt.Sprintf("%s: %d/%d/%d operations but %d/%d/%d statuses", where, nP, nD, nR,
 					len(resp.Puts), len(resp.Deletes), len(resp.DeleteRanges)))
@@ -541,9 +571,23 @@ func runLog(log []int) outcome {
 	}
 	_ = dbB.UpdateTerm(dbTerm, kv.TermOptions{NotificationsEnabled: true})
 	okB := true
+	// outcomeOf: "ok", the class of a typed rejection (the apply loops skip such an entry), or "" for anything else
+	outcomeOf := func(gi int, req *proto.WriteRequest, err error, pan any) string {
+		switch {
+		case pan != nil:
+			return ""
+		case err == nil:
+			return "ok"
+		case kv.IsInvalidRequestError(err):
+			return classifyErr(gens[gi], req, err)
+		}
+		return ""
+	}
 	for i, gi := range log {
-		if _, err, pan := apply(dbB, roundtrip(gens[gi].build()), int64(i)); err != nil || pan != nil {
-			viol("replica-divergence:apply-outcome", fmt.Sprintf("log %v: entry %d applied on the first replica but not on the second: err=%v panic=%v", names(log), i, err, pan))
+		req := roundtrip(gens[gi].build())
+		_, err, pan := apply(dbB, req, int64(i))
+		if got := outcomeOf(gi, req, err, pan); got != outcomesA[i] {
+			viol("replica-divergence:apply-outcome", fmt.Sprintf("log %v: entry %d: outcome %q on the first replica, on the second: %q err=%v panic=%v", names(log), i, outcomesA[i], got, err, pan))
 			okB = false
 			break
 		}
@@ -565,10 +609,16 @@ func runLog(log []int) outcome {
 	}
 	defer func() { _ = dbC.Close() }()
 	_ = dbC.UpdateTerm(dbTerm, kv.TermOptions{NotificationsEnabled: true})
+	commitC := int64(-1)
 	for i, gi := range log {
-		if _, err, pan := apply(dbC, roundtrip(gens[gi].build()), int64(i)); err != nil || pan != nil {
-			viol("reopen-divergence:apply-outcome", fmt.Sprintf("log %v: entry %d applied on the first replica but not after reopen: err=%v panic=%v", names(log), i, err, pan))
+		req := roundtrip(gens[gi].build())
+		_, err, pan := apply(dbC, req, int64(i))
+		if got := outcomeOf(gi, req, err, pan); got != outcomesA[i] {
+			viol("reopen-divergence:apply-outcome", fmt.Sprintf("log %v: entry %d: outcome %q on the first replica, after reopen: %q err=%v panic=%v", names(log), i, outcomesA[i], got, err, pan))
 			return out
+		}
+		if outcomesA[i] == "ok" {
+			commitC = int64(i)
 		}
 		if err := dbC.Close(); err != nil {
 			viol("reopen:close-failed", fmt.Sprintf("log %v: close after entry %d: %v", names(log), i, err))
@@ -579,7 +629,7 @@ func runLog(log []int) outcome {
 			dbC = nopDB{}
 			return out
 		}
-		if k, m := checkInternal(dbC, int64(i), fmt.Sprintf("log %v after reopen at entry %d", names(log), i), false); k != "" {
+		if k, m := checkInternal(dbC, commitC, fmt.Sprintf("log %v after reopen at entry %d", names(log), i), false); k != "" {
 			viol(k, m)
 		}
 	}
@@ -650,12 +700,21 @@ func probeEmptyBounds(run *ev.Run) *ev.Violation {
 // end-to-end consequence through a real leader controller (RF=1)
 
 type e2eResult struct {
-	WriteErrs      []string `json:"write_errors"`
-	BecomeLeader2  string   `json:"election_on_running_node_become_leader_term2"`
-	Restart        string   `json:"restart_new_leader_controller"`
-	BecomeLeader3  string   `json:"restart_become_leader_term2"`
-	LeaderBlocked  bool     `json:"leader_blocked"`
-	RestartBlocked bool     `json:"restart_blocked"`
+	WriteErrs       []string `json:"write_results"`
+	BecomeLeader2   string   `json:"election_on_running_node_become_leader_term2"`
+	LaterWrite1     string   `json:"election_route_later_write"`
+	Restart         string   `json:"restart_new_leader_controller"`
+	BecomeLeader3   string   `json:"restart_become_leader_term2"`
+	LaterWrite2     string   `json:"restart_route_later_write"`
+	Follower        string   `json:"follower_route"`
+	LeaderBlocked   bool     `json:"leader_blocked"`
+	RestartBlocked  bool     `json:"restart_blocked"`
+	FollowerBlocked bool     `json:"follower_blocked"`
+}
+
+func (r e2eResult) String() string {
+	return fmt.Sprintf("write results %v; election on the running node NewTerm(2)+BecomeLeader(2): %s, later write: %s; restart right after the writes: NewLeaderController: %s, NewTerm(2)+BecomeLeader(2): %s, later write: %s; real follower fed the leader's WAL (+ one later entry): %s",
+		r.WriteErrs, r.BecomeLeader2, r.LaterWrite1, r.Restart, r.BecomeLeader3, r.LaterWrite2, r.Follower)
 }
 
 func errStr(err error) string {
@@ -675,8 +734,24 @@ type node struct {
 
 var noFollowers = map[string]*proto.EntryId{}
 
-// startLeader builds a real RF=1 leader (term 1) on a fresh in-memory KV and a WAL under scratch and writes the log.
-func startLeader(scratch string, log []int) (*node, []string) {
+type reqBuilder = func() *proto.WriteRequest
+
+func buildersOf(log []int) []reqBuilder {
+	var b []reqBuilder
+	for _, gi := range log {
+		b = append(b, gens[gi].build)
+	}
+	return b
+}
+
+const laterKey = "zz-later"
+
+// laterRequest is the healthy entry that must still be applied after whatever the log under test contains.
+func laterRequest() *proto.WriteRequest { return onePut(put(laterKey, "later")) }
+
+// startLeader builds a real RF=1 leader (term 1) on a fresh in-memory KV and a WAL under scratch and sends the
+// requests through the real public RPC handlers.
+func startLeader(scratch string, reqs []reqBuilder) (*node, []string) {
 	n := &node{st: newStore(), wdir: filepath.Join(scratch, fmt.Sprintf("e2e-%d", storeCtr.Add(1)))}
 	n.walF = wal.NewWalFactory(&wal.FactoryOptions{BaseWalDir: n.wdir, Retention: time.Hour, SegmentSize: 128 * 1024, SyncData: false})
 	n.rpc = server.NewReplicationRpcProvider(nil)
@@ -692,8 +767,8 @@ func startLeader(scratch string, log []int) (*node, []string) {
 		panic(err)
 	}
 	var werrs []string
-	for _, gi := range log {
-		_, err, pan := publicWrite(n.lc, roundtrip(gens[gi].build()))
+	for _, b := range reqs {
+		_, err, pan := publicWrite(n.lc, roundtrip(b()))
 		if pan != nil {
 			werrs = append(werrs, fmt.Sprintf("PANIC: %v", pan))
 		} else {
@@ -745,19 +820,40 @@ func (n *node) stop() {
 	_ = os.RemoveAll(n.wdir)
 }
 
-// e2e shows the consequence of a log on a real leader controller through two routes:
-//  1. election on the running node: NewTerm(2) + BecomeLeader(2) (replays the WAL from the DB's commit offset);
-//  2. process restart right after the writes: a new controller on the same WAL and database, then NewTerm(2) + BecomeLeader(2).
+// laterWrite: after the node became leader again a healthy write must be applied.
+func laterWrite(lc server.LeaderController) (string, bool) {
+	resp, err, pan := publicWrite(lc, laterRequest())
+	if pan != nil || err != nil {
+		return fmt.Sprintf("ERROR: err=%v panic=%v", err, pan), false
+	}
+	if len(resp.Puts) != 1 || resp.Puts[0].Status != proto.Status_OK {
+		return fmt.Sprintf("ERROR: response %v", resp), false
+	}
+	gr, err := server.VerifLeaderDB(lc).Get(&proto.GetRequest{Key: laterKey, IncludeValue: true})
+	if err != nil || gr.Status != proto.Status_OK || string(gr.Value) != "later" {
+		return fmt.Sprintf("ERROR: later entry not readable: %v %v", gr, err), false
+	}
+	return "ok", true
+}
+
+// e2e shows the consequence of a log on the real controllers through three routes:
+//  1. election on the running node: NewTerm(2) + BecomeLeader(2) (replays the WAL from the DB's commit offset), then one more write;
+//  2. process restart right after the writes: a new controller on the same WAL and database, NewTerm(2) + BecomeLeader(2), one more write;
+//  3. a real follower controller is fed the leader's WAL (log + one later entry) over a scripted Replicate stream:
+//     it must apply up to the later entry and end with the leader's database content.
 func e2e(scratch string, log []int) (res e2eResult) {
 	defer func() {
 		if r := recover(); r != nil {
-			res.Restart += fmt.Sprintf(" PANIC: %v", r)
+			res.Follower += fmt.Sprintf(" PANIC: %v", r)
+			res.FollowerBlocked = true
 		}
 	}()
 	ctx := context.Background()
-	n1, werrs := startLeader(scratch, log)
+	reqs := buildersOf(log)
+	n1, werrs := startLeader(scratch, reqs)
 	defer n1.stop()
 	res.WriteErrs = werrs
+	res.LaterWrite1, res.LaterWrite2 = "n/a", "n/a"
 	if _, err := n1.lc.NewTerm(&proto.NewTermRequest{Shard: 1, Term: 2}); err != nil {
 		res.BecomeLeader2 = "NewTerm " + errStr(err)
 		res.LeaderBlocked = true
@@ -765,32 +861,176 @@ func e2e(scratch string, log []int) (res e2eResult) {
 		_, err = n1.lc.BecomeLeader(ctx, &proto.BecomeLeaderRequest{Shard: 1, Term: 2, ReplicationFactor: 1, FollowerMaps: noFollowers})
 		res.BecomeLeader2 = errStr(err)
 		res.LeaderBlocked = err != nil
+		if err == nil {
+			var ok bool
+			res.LaterWrite1, ok = laterWrite(n1.lc)
+			res.LeaderBlocked = !ok
+		}
 	}
 
-	n2, _ := startLeader(scratch, log)
-	defer n2.stop()
-	_ = n2.lc.Close()
-	var err error
-	n2.lc, err = server.NewLeaderController(server.Config{NotificationsRetentionTime: time.Hour}, "ns", 1, n2.rpc, n2.walF, n2.st.f)
-	res.Restart = errStr(err)
-	if err != nil {
-		n2.lc = nil
-		res.RestartBlocked = true
-		res.BecomeLeader3 = "n/a"
-		return res
-	}
-	if _, err := n2.lc.NewTerm(&proto.NewTermRequest{Shard: 1, Term: 2}); err != nil {
-		res.BecomeLeader3 = "NewTerm " + errStr(err)
-		res.RestartBlocked = true
-		return res
-	}
-	_, err = n2.lc.BecomeLeader(ctx, &proto.BecomeLeaderRequest{Shard: 1, Term: 2, ReplicationFactor: 1, FollowerMaps: noFollowers})
-	res.BecomeLeader3 = errStr(err)
-	res.RestartBlocked = err != nil
+	func() {
+		n2, _ := startLeader(scratch, reqs)
+		defer n2.stop()
+		_ = n2.lc.Close()
+		var err error
+		n2.lc, err = server.NewLeaderController(server.Config{NotificationsRetentionTime: time.Hour}, "ns", 1, n2.rpc, n2.walF, n2.st.f)
+		res.Restart = errStr(err)
+		if err != nil {
+			n2.lc = nil
+			res.RestartBlocked = true
+			res.BecomeLeader3 = "n/a"
+			return
+		}
+		if _, err := n2.lc.NewTerm(&proto.NewTermRequest{Shard: 1, Term: 2}); err != nil {
+			res.BecomeLeader3 = "NewTerm " + errStr(err)
+			res.RestartBlocked = true
+			return
+		}
+		_, err = n2.lc.BecomeLeader(ctx, &proto.BecomeLeaderRequest{Shard: 1, Term: 2, ReplicationFactor: 1, FollowerMaps: noFollowers})
+		res.BecomeLeader3 = errStr(err)
+		res.RestartBlocked = err != nil
+		if err == nil {
+			var ok bool
+			res.LaterWrite2, ok = laterWrite(n2.lc)
+			res.RestartBlocked = !ok
+		}
+	}()
+
+	res.Follower, res.FollowerBlocked = followerRoute(scratch, append(append([]reqBuilder{}, reqs...), laterRequest))
 	return res
 }
 
+// replStream is the server side of a scripted Replicate stream.
+type replStream struct {
+	grpc.ServerStream
+	ctx  context.Context
+	in   chan *proto.Append
+	acks chan *proto.Ack
+}
+
+func (s *replStream) Context() context.Context { return s.ctx }
+func (s *replStream) Send(a *proto.Ack) error {
+	s.acks <- a
+	return nil
+}
+func (s *replStream) Recv() (*proto.Append, error) {
+	select {
+	case a := <-s.in:
+		return a, nil
+	case <-s.ctx.Done():
+		return nil, s.ctx.Err()
+	}
+}
+
+const safety = 60 * time.Second // liveness safety net for the follower route; expiring is reported as blocked
+
+// followerRoute: a leader applies the requests; its WAL (every accepted request, also the ones ProcessWrite refused) is
+// then replicated entry by entry to a real follower controller, each entry advertised as committed. The follower must
+// acknowledge and apply every entry up to the last one and end with the same database content as the leader.
+func followerRoute(scratch string, reqs []reqBuilder) (string, bool) {
+	n, _ := startLeader(scratch, reqs)
+	defer n.stop()
+	rd, err := server.VerifLeaderWal(n.lc).NewReader(wal.InvalidOffset)
+	if err != nil {
+		return "cannot read the leader WAL: " + err.Error(), true
+	}
+	var entries []*proto.LogEntry
+	for rd.HasNext() {
+		e, err := rd.ReadNext()
+		if err != nil {
+			_ = rd.Close()
+			return "cannot read the leader WAL: " + err.Error(), true
+		}
+		entries = append(entries, e)
+	}
+	_ = rd.Close()
+	if len(entries) == 0 {
+		return "ok (nothing reached the log)", false
+	}
+	last := entries[len(entries)-1].Offset
+	leaderDump := strings.Join(oxh.DumpDB(server.VerifLeaderDB(n.lc), dumpOpts), "\n")
+
+	fst := newStore()
+	fdir := filepath.Join(scratch, fmt.Sprintf("e2e-f-%d", storeCtr.Add(1)))
+	fwal := wal.NewWalFactory(&wal.FactoryOptions{BaseWalDir: fdir, Retention: time.Hour, SegmentSize: 128 * 1024, SyncData: false})
+	fc, err := server.NewFollowerController(server.Config{NotificationsRetentionTime: time.Hour}, "ns", 1, fwal, fst.f)
+	if err != nil {
+		return "NewFollowerController: " + err.Error(), true
+	}
+	ctx, cancel := context.WithCancel(context.Background())
+	defer func() {
+		cancel()
+		_ = fc.Close()
+		_ = fwal.Close()
+		fsReg.Delete(fst.dir)
+		_ = os.RemoveAll(fdir)
+	}()
+	if _, err := fc.NewTerm(&proto.NewTermRequest{Shard: 1, Term: 1}); err != nil {
+		return "follower NewTerm: " + err.Error(), true
+	}
+	st := &replStream{ctx: ctx, in: make(chan *proto.Append), acks: make(chan *proto.Ack, 4096)}
+	done := make(chan error, 1)
+	go func() { done <- fc.Replicate(st) }()
+	timeout := time.After(safety)
+	for _, e := range entries {
+		select {
+		case st.in <- &proto.Append{Term: 1, Entry: e, CommitOffset: e.Offset}:
+		case err := <-done:
+			return fmt.Sprintf("ERROR: replication stream closed by the follower before entry %d of %d (commit offset %d): %v", e.Offset, last, fc.CommitOffset(), err), true
+		case <-timeout:
+			return fmt.Sprintf("ERROR: follower does not take entry %d", e.Offset), true
+		}
+		select {
+		case a := <-st.acks:
+			if a.Offset != e.Offset {
+				return fmt.Sprintf("ERROR: ack %d for entry %d", a.Offset, e.Offset), true
+			}
+		case err := <-done:
+			return fmt.Sprintf("ERROR: replication stream closed by the follower at entry %d of %d (commit offset %d): %v", e.Offset, last, fc.CommitOffset(), err), true
+		case <-timeout:
+			return fmt.Sprintf("ERROR: no ack for entry %d", e.Offset), true
+		}
+	}
+	// every entry is in the follower's WAL and advertised as committed: wait until it is applied or the apply loop gave up
+	for fc.CommitOffset() < last {
+		select {
+		case err := <-done:
+			return fmt.Sprintf("ERROR: follower stopped applying at commit offset %d of %d: %v", fc.CommitOffset(), last, err), true
+		case <-timeout:
+			return fmt.Sprintf("ERROR: follower stuck at commit offset %d of %d", fc.CommitOffset(), last), true
+		default:
+			time.Sleep(100 * time.Microsecond)
+		}
+	}
+	fdb := server.VerifFollowerDB(fc)
+	gr, err := fdb.Get(&proto.GetRequest{Key: laterKey, IncludeValue: true})
+	if err != nil || gr.Status != proto.Status_OK {
+		return fmt.Sprintf("ERROR: follower reports commit offset %d but the later entry is not applied: %v %v", fc.CommitOffset(), gr, err), true
+	}
+	if d := strings.Join(oxh.DumpDB(fdb, dumpOpts), "\n"); d != leaderDump {
+		return fmt.Sprintf("ERROR: follower and leader databases differ\n--- leader\n%s\n--- follower\n%s", leaderDump, d), true
+	}
+	return fmt.Sprintf("ok (%d entries applied)", len(entries)), false
+}
+
 // ---------------------------------------------------------------------------------------------
+
+// less orders logs: shortest first, then by generator indices.
+func lessLog(a, b []int) bool {
+	if len(a) != len(b) {
+		return len(a) < len(b)
+	}
+	for k := range a {
+		if a[k] != b[k] {
+			return a[k] < b[k]
+		}
+	}
+	return false
+}
+
+// rejections seen so far: class -> (minimal rejecting log, number of logs)
+var rejMin = map[string][]int{}
+var rejCount = map[string]int64{}
 
 func enumerate(run *ev.Run, logs [][]int, deadline time.Time, label string) []ev.Violation {
 	var mu sync.Mutex
@@ -833,6 +1073,12 @@ func enumerate(run *ev.Run, logs [][]int, deadline time.Time, label string) []ev
 		mu.Lock()
 		all = append(all, o.viols...)
 		mu.Unlock()
+		for _, r := range o.rejs {
+			rejCount[r.key]++
+			if cur, ok := rejMin[r.key]; !ok || lessLog(r.log, cur) {
+				rejMin[r.key] = r.log
+			}
+		}
 	}
 	run.Add("evaluations", done)
 	run.Add("logs_"+label, done)
@@ -887,6 +1133,14 @@ func main() {
 		}()
 		_, _ = server.VerifC13PublicWrite(context.Background(), nd.lc, &proto.WriteRequest{Puts: []*proto.PutRequest{{Key: "a"}}})
 	}()
+	if v := probeEmptyBounds(run); v != nil {
+		run.Violate(*v)
+	} else {
+		// the outcome of range["","") is a function of the input on this tree: no special treatment of the logs that contain it
+		for i := range gens {
+			gens[i].nondet = false
+		}
+	}
 	n := len(gens)
 	var logs [][]int
 	for _, i := range acc {
@@ -896,9 +1150,6 @@ func main() {
 		for _, j := range acc {
 			logs = append(logs, []int{i, j})
 		}
-	}
-	if v := probeEmptyBounds(run); v != nil {
-		run.Violate(*v)
 	}
 	viols := enumerate(run, logs, deadline, "depth1+2_full_grammar")
 	nseq := 0
@@ -932,15 +1183,7 @@ func main() {
 		if na, nb := hasNondet(a), hasNondet(b); na != nb {
 			return nb
 		}
-		if len(a) != len(b) {
-			return len(a) < len(b)
-		}
-		for k := range a {
-			if a[k] != b[k] {
-				return a[k] < b[k]
-			}
-		}
-		return false
+		return lessLog(a, b)
 	})
 	if f := os.Getenv("VERIF_C13_DUMP"); f != "" {
 		var sb strings.Builder
@@ -961,15 +1204,8 @@ func main() {
 				log = append(log, genByName[nm])
 			}
 			r := e2e(scratch, log)
-			run.Add("e2e_leader_runs", 1)
-			if r.LeaderBlocked {
-				run.Add("e2e_become_leader_failed", 1)
-			}
-			if r.RestartBlocked {
-				run.Add("e2e_restart_blocked", 1)
-			}
-			v.Message += fmt.Sprintf("\n  end-to-end (real public Write handler + LeaderController, RF=1): write results %v; election on the running node NewTerm(2)+BecomeLeader(2): %s; restart right after the writes: NewLeaderController: %s, then NewTerm(2)+BecomeLeader(2): %s",
-				r.WriteErrs, r.BecomeLeader2, r.Restart, r.BecomeLeader3)
+			countE2E(run, r)
+			v.Message += "\n  end-to-end (real public Write handler, real leader RF=1, real follower): " + r.String()
 			rp := v.Replay.(map[string]any)
 			rp["e2e"] = r
 			e2eByKey[v.Key] = map[string]any{"log": logOf(*v), "result": r}
@@ -981,11 +1217,33 @@ func main() {
 	for k, c := range perKey {
 		run.Note(fmt.Sprintf("violation key %s: %d failing logs", k, c))
 	}
-	// control: a healthy log through the same end-to-end route must not block anything
+	// typed rejections (kv.IsInvalidRequestError, no trace at DB level): acceptable iff all three end-to-end routes
+	// cope with the minimal log of the class: later entries still applied by the follower, BecomeLeader succeeds on both
+	// leader routes and a later write goes through. A failed route is a violation under the key of the class.
+	var rejKeys []string
+	for k := range rejMin {
+		rejKeys = append(rejKeys, k)
+	}
+	sort.Strings(rejKeys)
+	e2eByRej := map[string]any{}
+	for _, k := range rejKeys {
+		log := rejMin[k]
+		r := e2e(scratch, log)
+		countE2E(run, r)
+		run.Add("typed_rejection_classes", 1)
+		run.Add("typed_rejections_without_trace", rejCount[k])
+		e2eByRej[k] = map[string]any{"log": names(log), "logs_with_this_rejection": rejCount[k], "result": r}
+		if r.LeaderBlocked || r.RestartBlocked || r.FollowerBlocked {
+			run.Violate(ev.Violation{Key: k, Harness: "c13-e2e", Replay: map[string]any{"log": names(log), "indices": log, "e2e": r},
+				Message: fmt.Sprintf("log %v: ProcessWrite refuses the last request with a typed error and leaves no trace, but an end-to-end route does not cope with the logged entry: %s", names(log), r)})
+		}
+	}
+	run.Coverage["e2e_by_typed_rejection_class"] = e2eByRej
+	// control: a healthy log through the same end-to-end routes must not block anything
 	ctl := e2e(scratch, []int{genByName["put(a)"], genByName["seqput(p,pk=true,ev=false,deltas=[1])"]})
-	run.Add("e2e_leader_runs", 1)
-	if ctl.LeaderBlocked || ctl.RestartBlocked {
-		run.Violate(ev.Violation{Key: "e2e-control-failed", Harness: "c13-e2e", Message: fmt.Sprintf("healthy log blocks the leader: %+v", ctl)})
+	countE2E(run, ctl)
+	if ctl.LeaderBlocked || ctl.RestartBlocked || ctl.FollowerBlocked {
+		run.Violate(ev.Violation{Key: "e2e-control-failed", Harness: "c13-e2e", Message: fmt.Sprintf("healthy log blocks a route: %s", ctl)})
 	}
 	run.Add("logs_where_a_client_delete_erased_the_term_record", termErased.Load())
 	run.Coverage["e2e_by_violation_key"] = e2eByKey
@@ -1000,13 +1258,28 @@ func main() {
 	run.Sample(map[string]any{"log": []string{"put(\"p-!\")", "seqput(p,pk=true,ev=false,deltas=[1])"}})
 	run.Sample(map[string]any{"log": []string{"put(a)", "range[a,a/c)"}})
 	run.Assume = []string{
-		"membership of a request in the grammar is decided by the code under test: each generator is sent through the real public RPC handlers (publicRpcServer.Write, procesWriteStream) to a real RF=1 leader and kept only if the WAL grew (currently all are: neither handler nor leaderController.write validates anything before appending)",
+		"membership of a request in the grammar is decided by the code under test: each generator is sent through the real public RPC handlers (publicRpcServer.Write, procesWriteStream) to a real RF=1 leader and kept only if the WAL grew (see coverage.rejected_before_logging for the ones the handlers refuse)",
 		"repeated fields never contain nil elements (impossible on the wire); every request is marshalled and unmarshalled before it is applied",
 		"ProcessWrite is called with server.WrapperUpdateOperationCallback, the callback used by leader, follower and replay",
 		"a replica that hit an infrastructure error is not compared further: the follower apply loop returns at that entry",
+		"a ProcessWrite error for which kv.IsInvalidRequestError holds is a typed per-request rejection (the apply loops skip such entries): accepted iff it leaves no trace in the full dump and the version counter, all replicas agree on it, and the three end-to-end routes cope with the minimal log of its class",
 	}
 	_ = os.RemoveAll(scratch) // os.Exit skips deferred calls
 	os.Exit(run.Finish("every request of the grammar applied in the empty state and after every single other request (all ordered pairs; thorough: all ordered triples of the sequence sub-grammar) on three replicas (leader route, follower route with fresh decode, close+reopen after every entry); a case is distinct when its (request families, per-operation statuses / error class) signature differs"))
+}
+
+func countE2E(run *ev.Run, r e2eResult) {
+	run.Add("e2e_runs", 1)
+	run.Add("evaluations", 1)
+	if r.LeaderBlocked {
+		run.Add("e2e_become_leader_failed", 1)
+	}
+	if r.RestartBlocked {
+		run.Add("e2e_restart_blocked", 1)
+	}
+	if r.FollowerBlocked {
+		run.Add("e2e_follower_blocked", 1)
+	}
 }
 
 func hasNondet(log []int) bool {
@@ -1060,7 +1333,6 @@ func doReplay(path string) int {
 	scratch := ev.Scratch("c13r")
 	defer os.RemoveAll(scratch)
 	r := e2e(scratch, log)
-	fmt.Printf("  end-to-end (real public Write handler + LeaderController, RF=1): write results %v; election on the running node NewTerm(2)+BecomeLeader(2): %s; restart right after the writes: NewLeaderController: %s, then NewTerm(2)+BecomeLeader(2): %s\n",
-		r.WriteErrs, r.BecomeLeader2, r.Restart, r.BecomeLeader3)
+	fmt.Printf("  end-to-end (real public Write handler, real leader RF=1, real follower): %s\n", r)
 	return 1
 }
